@@ -179,6 +179,42 @@ def sources_case(item):
         shutil.rmtree(root, ignore_errors=True)
 
 
+def rename_case(item):
+    """update_resource(sel, name=..., path=...) keeps every stream with its descriptor, also for the steps that follow"""
+    from dataflows import Flow
+    import dataflows as DF
+    setup_repo()
+    n, pos, follow = item['n'], item['pos'], item['follow']
+    srcs = [[{('f%d' % i): i * 100 + k} for k in range(3)] for i in range(n)]
+    steps = [DF.update_resource(pos, name='renamed', path='renamed.csv')]
+    if follow == 'add_field':
+        steps.append(DF.add_field('z', 'integer', 7))
+    elif follow == 'filter':
+        steps.append(DF.filter_rows(condition=lambda r: True))
+    elif follow == 'delete_other' and n > 1:
+        steps.append(DF.delete_resource('res_%d' % (1 if pos % n != 0 else 2)))
+    elif follow == 'source':
+        steps.append([dict(q=1)])
+    try:
+        with contextlib.redirect_stdout(io.StringIO()):
+            res, dp, _ = Flow(*srcs, *steps).results()
+    except Exception as e:
+        return dict(ok=False, why='raised %s: %s' % (type(e).__name__, str(e)[:200]))
+    names = [r['name'] for r in dp.descriptor['resources']]
+    if len(set(names)) != len(names) or 'renamed' not in names:
+        return dict(ok=False, why='resource names after update_resource(name=...)', got=names)
+    for r, rows in zip(dp.descriptor['resources'], res):
+        fields = [f['name'] for f in r['schema']['fields'] if f['name'] != 'z']
+        for row in rows:
+            if sorted(k for k in row if k != 'z') != sorted(fields):
+                return dict(ok=False, why='a row stream is paired with the wrong descriptor after update_resource', got=dict(resource=r['name'], fields=fields, row=row))
+    total = sum(len(x) for x in res)
+    want = 3 * n - (3 if follow == 'delete_other' and n > 1 else 0) + (1 if follow == 'source' else 0)
+    if total != want:
+        return dict(ok=False, why='rows lost or invented around update_resource', got=total, want=want)
+    return dict(ok=True)
+
+
 def run():
     rep = Report(PROP)
     t = rep.tier
@@ -221,6 +257,15 @@ def run():
         if not out['ok']:
             rep.violation(it, dict(program='%d iterable sources, delete_resource(%d), one more iterable source' % (it['n'], it['delete']),
                                    **{k: v for k, v in out.items() if k != 'ok'}), category='append-after-delete/%s' % out['why'][:40])
+    rc = [dict(n=n, pos=p_, follow=f) for n in (1, 2, 3) for p_ in range(-n, n) for f in ('none', 'add_field', 'filter', 'delete_other', 'source')]
+    for it, out in zip(rc, pmap(rename_case, rc, chunksize=4)):
+        if '__harness_error__' in out:
+            raise tlc.MachineryError('harness error: ' + out['__harness_error__'])
+        rep.count(1, traces=1)
+        rep.mark_distinct(dict(rename=it))
+        if not out['ok']:
+            rep.violation(it, dict(program='%d resources, update_resource(%d, name=...), then %s' % (it['n'], it['pos'], it['follow']),
+                                   **{k_: v for k_, v in out.items() if k_ != 'ok'}), category='update_resource/%s' % out['why'][:40])
     sc = [dict(n=n, k=k) for n in (0, 1, 2) for k in (1, 2, 3)]
     for it, out in zip(sc, pmap(sources_case, sc, procs=1)):
         if '__harness_error__' in out:
